@@ -17,6 +17,8 @@ pub mod c13;
 pub mod c14;
 pub mod c15;
 pub mod c16;
+#[cfg(feature = "cluster")]
+pub mod c17;
 pub mod fac;
 
 pub fn dispatch(args: &Args, rep: &mut Report) {
@@ -37,6 +39,8 @@ pub fn dispatch(args: &Args, rep: &mut Report) {
         "C14" => c14::run(args, rep),
         "C15" => c15::run(args, rep),
         "C16" => c16::run(args, rep),
+        #[cfg(feature = "cluster")]
+        "C17" => c17::run(args, rep),
         p => {
             eprintln!("unknown property {p}");
             std::process::exit(2);
